@@ -16,6 +16,8 @@ def value(level, key):
         return None if level == 1 else "b-at-%d" % level
     if level % 2:
         return pd.DataFrame({"lvl": [level], "k": [key]})
+    if key == "c" and level == 0:
+        return InMemoryPartition({"inner": "nested-at-%d" % level, "n": 7})  # a value that is itself a partition
     return [level, key]
 
 
